@@ -18,17 +18,17 @@ package schedule
 //@ func (*host) getFragmentCPUPlans
 //@   requires h != nil && fragment >= 1 && okCores(cores)
 //@   ensures[C05.fragment-shape,C04,C06] (arr(result) == 0 || (fresh(result) && allocated(result))) && forall k :: 0 <= k && k < len(result) ==>
-//@        result[k] != nil && fresh(result[k]) && allocated(result[k]) && card(result[k]) == 1 && msum(result[k]) == fragment
+//@        result[k] != nil && fresh(result[k]) && allocated(result[k]) && card(result[k]) == 1 && msum(result[k]) == fragment && (forall id string :: id in result[k] ==> result[k][id] == fragment)
 //@        && exists c :: 0 <= c && c < len(cores) && cores[c].ID in result[k] && result[k][cores[c].ID] == fragment && fragment <= cores[c].pieces
 //@   loop 1:
 //@     modifies nothing
 //@     invariant (arr(result) == 0 || (fresh(result) && allocated(result)))
-//@     invariant forall k :: 0 <= k && k < len(result) ==> result[k] != nil && fresh(result[k]) && allocated(result[k]) && card(result[k]) == 1 && msum(result[k]) == fragment
+//@     invariant forall k :: 0 <= k && k < len(result) ==> result[k] != nil && fresh(result[k]) && allocated(result[k]) && card(result[k]) == 1 && msum(result[k]) == fragment && (forall id string :: id in result[k] ==> result[k][id] == fragment)
 //@        && exists c :: 0 <= c && c <= rangeindex && cores[c].ID in result[k] && result[k][cores[c].ID] == fragment && fragment <= cores[c].pieces
 //@   loop 2:
 //@     modifies nothing
 //@     invariant 0 <= i && (arr(result) == 0 || (fresh(result) && allocated(result))) && core != nil && core == cores[rangeindex] && 0 <= rangeindex && rangeindex < len(cores)
-//@     invariant forall k :: 0 <= k && k < len(result) ==> result[k] != nil && fresh(result[k]) && allocated(result[k]) && card(result[k]) == 1 && msum(result[k]) == fragment
+//@     invariant forall k :: 0 <= k && k < len(result) ==> result[k] != nil && fresh(result[k]) && allocated(result[k]) && card(result[k]) == 1 && msum(result[k]) == fragment && (forall id string :: id in result[k] ==> result[k][id] == fragment)
 //@        && exists c :: 0 <= c && c <= rangeindex && cores[c].ID in result[k] && result[k][cores[c].ID] == fragment && fragment <= cores[c].pieces
 //@     decreases core.pieces / fragment - i
 
@@ -39,6 +39,10 @@ package schedule
 //@        && forall a, b :: 0 <= a && a < len(h.fullCores) && 0 <= b && b < len(h.fragmentCores) ==> h.fullCores[a].ID != h.fragmentCores[b].ID
 
 //@ pred okHost(h *host) = h != nil && allocated(h) && h.shareBase >= 1 && h.shareBase <= 1048576 && (h.maxFragmentCores == -1 || h.maxFragmentCores >= 1)
+//@        && okCores(h.fullCores) && okCores(h.fragmentCores) && (arr(h.fullCores) == 0 || arr(h.fullCores) != arr(h.fragmentCores))
+
+//@ # the host while cores are being moved from the full to the fragment list (its fragment-core limit may be anything)
+//@ pred okHostCores(h *host) = h != nil && allocated(h) && h.shareBase >= 1 && h.shareBase <= 1048576
 //@        && okCores(h.fullCores) && okCores(h.fragmentCores) && (arr(h.fullCores) == 0 || arr(h.fullCores) != arr(h.fragmentCores))
 
 //@ func newHost
@@ -75,10 +79,10 @@ package schedule
 //@     invariant oldFull != nil && fresh(oldFull) && allocated(oldFull) && oldFragment != nil && fresh(oldFragment) && allocated(oldFragment) && oldFull != oldFragment
 //@     invariant (forall k string :: oldFull[k] >= 0) && (forall k string :: oldFragment[k] >= 0)
 
-//@ # ---- whole-core plans (no affinity): `full` distinct cores at a full share each ----
+//@ # ---- whole-core plans: `full` distinct cores at a full share each (heap planner, or the affinity planner below) ----
 
 //@ func (*host) getFullCPUPlans
-//@   requires h != nil && h.shareBase >= 1 && h.shareBase <= 1048576 && full >= 1 && okCores(cores) && distinctIDs(cores) && !h.affinity
+//@   requires h != nil && h.shareBase >= 1 && h.shareBase <= 1048576 && full >= 1 && full <= 1048576 && okCores(cores) && distinctIDs(cores)
 //@   ensures[C05.full-shape,C04,C06] (arr(result) == 0 || (fresh(result) && allocated(result))) && forall k :: 0 <= k && k < len(result) ==>
 //@        result[k] != nil && allocated(result[k]) && card(result[k]) == full && msum(result[k]) == full * h.shareBase
 //@        && forall id string :: id in result[k] ==> result[k][id] == h.shareBase
@@ -127,6 +131,53 @@ package schedule
 //@     invariant forall a, b :: 0 <= a && a < b && b < len(resourcesToPush) ==> resourcesToPush[a] != resourcesToPush[b] && resourcesToPush[a].ID != resourcesToPush[b].ID
 //@     invariant forall k :: 0 <= k && k < len(result) ==> result[k] != nil && allocated(result[k]) && card(result[k]) == full && msum(result[k]) == full * h.shareBase
 //@                  && forall id string :: id in result[k] ==> result[k][id] == h.shareBase
+
+//@ # ---- whole-core plans with affinity (re-allocation): cores are taken in the order given, `full` at a time ----
+//@ pred planShape(m types.CPUMap, full int, sb int) = m != nil && allocated(m) && card(m) == full && msum(m) == full * sb && forall id string :: id in m ==> m[id] == sb
+
+//@ # what the pairing loop needs to know about a whole-core plan: every core of it carries one full share
+//@ pred planOK(m types.CPUMap, sb int) = m != nil && allocated(m) && forall id string :: id in m ==> m[id] == sb
+//@ pred fragShape(m types.CPUMap, fragment int) = m != nil && allocated(m) && forall id string :: id in m ==> m[id] == fragment
+
+//@ func (*host) getFullCPUPlansWithAffinity
+//@   requires h != nil && h.shareBase >= 1 && h.shareBase <= 1048576 && full >= 1 && full <= 1048576 && okCores(cores) && distinctIDs(cores)
+//@   ensures[C05.full-shape-affinity,C04,C06,C33] (arr(result) == 0 || (fresh(result) && allocated(result))) && forall k :: 0 <= k && k < len(result) ==> planShape(result[k], full, h.shareBase)
+//@   # the first plan takes the first `full` cores of the list it was given (the workload's old cores after reorderByAffinity)
+//@   ensures[C33.first-plan-cores] len(result) >= 1 ==> forall j :: 0 <= j && j < full ==> old(cores[j].ID) in result[0]
+//@   loop 1:
+//@     modifies nothing
+//@     invariant okCores(cores)
+//@     invariant distinctIDs(cores)
+//@     invariant arr(result) == 0 || (fresh(result) && allocated(result))
+//@     invariant forall k :: 0 <= k && k < len(result) ==> planShape(result[k], full, h.shareBase)
+//@     invariant len(result) == 0 ==> arr(cores) == arr(old(cores)) && off(cores) == off(old(cores)) && len(cores) == len(old(cores))
+//@     invariant len(result) >= 1 ==> forall j :: 0 <= j && j < full ==> old(cores[j].ID) in result[0]
+//@   loop 2:
+//@     modifies nothing
+//@     invariant 0 <= i && i <= count && count == len(cores) / full && count >= 1 && len(cores) >= full
+//@     invariant okCores(cores) && distinctIDs(cores) && (arr(result) == 0 || (fresh(result) && allocated(result)))
+//@     invariant forall k :: 0 <= k && k < len(result) ==> planShape(result[k], full, h.shareBase)
+//@     invariant len(result) >= 1 ==> forall j :: 0 <= j && j < full ==> old(cores[j].ID) in result[0]
+//@     invariant len(result) == 0 ==> i == 0 && arr(cores) == arr(old(cores)) && off(cores) == off(old(cores)) && len(cores) == len(old(cores))
+//@     invariant okCores(tempCores) && (arr(tempCores) == 0 || fresh(tempCores)) && distinctIDs(tempCores)
+//@     # the cores set aside so far are fresh records, none of them one of the cores not yet consumed
+//@     invariant forall a :: 0 <= a && a < len(tempCores) ==> fresh(tempCores[a])
+//@     invariant forall a, jj :: 0 <= a && a < len(tempCores) && i * full <= jj && jj < len(cores) ==> tempCores[a].ID != cores[jj].ID
+//@   loop 3:
+//@     modifies cpuMap
+//@     invariant 0 <= i && i < count && count == len(cores) / full && count >= 1 && len(cores) >= full && i * full <= j && j <= i * full + full
+//@     invariant okCores(cores) && distinctIDs(cores) && (arr(result) == 0 || (fresh(result) && allocated(result)))
+//@     invariant forall k :: 0 <= k && k < len(result) ==> planShape(result[k], full, h.shareBase) && result[k] != cpuMap
+//@     invariant len(result) >= 1 ==> forall jj :: 0 <= jj && jj < full ==> old(cores[jj].ID) in result[0]
+//@     invariant len(result) == 0 ==> i == 0 && arr(cores) == arr(old(cores)) && off(cores) == off(old(cores)) && len(cores) == len(old(cores))
+//@     invariant okCores(tempCores) && (arr(tempCores) == 0 || fresh(tempCores)) && distinctIDs(tempCores)
+//@     invariant forall a :: 0 <= a && a < len(tempCores) ==> fresh(tempCores[a])
+//@     invariant forall a, jj :: 0 <= a && a < len(tempCores) && j <= jj && jj < len(cores) ==> tempCores[a].ID != cores[jj].ID
+//@     invariant cpuMap != nil && fresh(cpuMap) && allocated(cpuMap) && card(cpuMap) == j - i * full && msum(cpuMap) == (j - i * full) * h.shareBase
+//@     invariant forall id string :: id in cpuMap ==> cpuMap[id] == h.shareBase
+//@     # the plan being built holds exactly the cores consumed for it so far
+//@     invariant forall jj :: i * full <= jj && jj < j ==> cores[jj].ID in cpuMap
+//@     invariant forall jj :: j <= jj && jj < len(cores) ==> !(cores[jj].ID in cpuMap)
 
 //@ # getCPUPlans: only the piece arithmetic and what is handed to the planners is claimed here (partial contract);
 //@ # the core-conversion loop and the pairing of full and fragment plans need finite sums over the cores.
